@@ -343,5 +343,15 @@ ResAgrees == last.exp.res = last.tres
 \* with no deviation in force the actual layer is the intended one
 ActualIsIntended == Deviations = {} => d = t
 
+\* KEY FAULTS (crash points inside an operation).  Hash and == of a key of a user-defined class are
+\* method calls that may raise in the middle of Index / SetCap / CopyInto.  The abstract layer then
+\* allows exactly two outcomes for the operation o: it reports the error and is a STUTTERING step of
+\* m (no register changes: Spec's [][Next]_vars already admits it), or it completes and is the Next
+\* step for o.  FaultOutcomes is what prop/c17's fault stage compares the real collections with,
+\* after the last operation of every history has been run with the hash (or ==) of one key raising:
+\* "raised" must leave both registers at mPre, "completed" must reach mPost.
+FaultOutcomes(mPre, mPost, raised) == IF raised THEN {mPre} ELSE {mPost}
+FaultAtomic(mPre, mPost, raised, mReal) == mReal \in FaultOutcomes(mPre, mPost, raised)
+
 View == <<m, t, d, Len(hist)>>   \* depth in the view: every state is expanded at every depth it is reachable at (deterministic with several workers)
 =============================================================================
